@@ -76,7 +76,7 @@ def main():
         for n in sorted(os.listdir(os.path.join(SRC, f"{p}.out"))):
             if n[0] in "mr" and n[1:].isdigit():
                 jobs.append((p, n))
-    with ThreadPoolExecutor(max_workers=8) as ex:
+    with ThreadPoolExecutor(max_workers=int(os.environ.get("VERIF_CONFIRM_WORKERS", "8"))) as ex:
         res = list(ex.map(lambda j: confirm(*j), jobs))
     counters = {}
     for prop, name, kind, ok, info in res:
